@@ -8,6 +8,8 @@
 //	remoting coal-stress <maxBatch> <callers> <msgs> <histories> <seed> <trace.ndjson>
 //	    C27: free-running concurrent RemoteTell callers, scripted transport failures, close at a
 //	    random moment.
+//	remoting coal-witness <rounds> <trace.ndjson>
+//	    C27: the hand-translated counterexample schedule of the repaired LateSubmit defect (submit racing with close).
 //	remoting pool-replay | pool-stress ...   C28, see pool.go
 //	remoting sys-tell | sys-ask | sys-dead ...   C29 / C28 / C27 on two real actor systems, see sys.go
 package main
@@ -31,6 +33,8 @@ func main() {
 		coalReplayMain(os.Args[2:])
 	case "coal-stress":
 		coalStressMain(os.Args[2:])
+	case "coal-witness":
+		coalWitnessMain(os.Args[2:])
 	case "pool-replay":
 		poolReplayMain(os.Args[2:])
 	case "pool-stress":
